@@ -166,6 +166,7 @@ class NF:
         self._self_exact = True     # `self` of the class under analysis is taken to be exactly that class
         self.unresolved_calls = 0
         self.resolved_calls = 0
+        self._closures: dict = {}
 
     # ------------------------------------------------------------------ static types
     def ann_type(self, mod: Module, ann: ast.expr | None, depth: int = 0):
@@ -532,8 +533,14 @@ class NF:
             return t[1]
         return self._codec(t, "deserialize", "dec", env)
 
+    # codecs of whole documents are treated as atoms (their internals are decided by dedicated rules, and whether they
+    # happen to be normalisable must not change the normal form of their callers)
+    ATOMIC_CODECS = {"hugr.hugr.base.Hugr"}
+
     def _codec(self, t, mname, marker, env: Env):
         ty = self.type_of(t, env)
+        if isinstance(ty, Class) and ty.qualname in self.ATOMIC_CODECS:
+            return (marker, t)
         if isinstance(ty, Class) and (t[0] == "ctor" or (self.inline_symbolic and self.is_concrete(ty)
                                                          and not self.overridden_below(ty, mname))):
             c, m = ty.find_method(mname)
@@ -725,6 +732,15 @@ class NF:
                 v = env.vars[f.id]
                 if v[0] == "class":
                     return self.construct(self.prog.cls(v[1]), e, env)
+                if v[0] == "closure" and v[1] in self._closures:
+                    node, cenv = self._closures[v[1]]
+                    try:
+                        args = self._bind(node, e, env, skip_self=False)
+                        env2 = cenv.child(depth=env.depth + 1, vdepth=env.vdepth)
+                        env2.vars = {**cenv.vars, **args}
+                        return self.body(node, env2)
+                    except Opaque:
+                        return ("call", node.name, tuple(self.ev(a, env) for a in e.args if not isinstance(a, ast.Starred)), ())
                 return ("call", "<local>", tuple([v] + [self.ev(a, env) for a in e.args]), ())
             target = env.module.resolve(f)
             if isinstance(target, Class):
@@ -926,6 +942,11 @@ class NF:
                 continue
             if isinstance(s, ast.Return):
                 return self.ev(s.value, env) if s.value is not None else const(None)
+            if isinstance(s, ast.FunctionDef):
+                # a local closure: calls to it are evaluated in the defining environment
+                self._closures[id(s)] = (s, env)
+                env.vars[s.name] = ("closure", id(s))
+                continue
             if isinstance(s, ast.If):
                 c = self.ev(s.test, env)
                 e1, e2 = env.child(), env.child()
